@@ -320,6 +320,22 @@ class VerMsg:
         self.payload = pkt
 
 
+class VerTcs(FakeTcs):
+    """The system's lock, plus _schedule_version by contract: a forced query is one more exchange with the SAME
+    controller and returns the change counter it holds at that exchange (1 before the change, 2 after)."""
+
+    def __init__(self):
+        super().__init__()
+        self.gwy = None
+
+    async def _schedule_version(self, force_io=False):
+        g = self.gwy
+        g.exchanges += 1
+        if g.exchanges > 8:
+            assume(False)
+        return (1 if g.exchanges <= g.change_after else 2), True
+
+
 def ver_fragment_cmd_stub(cls, ctl_id, idx, frag_num, size):
     return ("RQ|0404", frag_num)
 
@@ -350,18 +366,20 @@ def fetch_survives_a_change_on_the_controller(n, t1, t2):
     (t1 -> t2 fragments): the transfer ends with a schedule of ONE version or with a protocol error --
     never a stitched schedule, never a RuntimeError/StopIteration from a full-but-unprocessed set --
     and the empty set shared with the other zones is left as it was."""
-    tcs = FakeTcs()
+    tcs = VerTcs()
     set_global(S, "EMPTY_PAYLOAD_SET", [None])
     init = []
     for i in range(n):
         k = sym_choice(f"slot_{i}", ["empty", "stale", "current"])
         init.append(None if k == "empty" else {"frag_number": i + 1, "total_frags": n, "fragment": ("ver", 0 if k == "stale" else 1)})
     gwy = VerGwy(sym_int("change_after", 0, 8), {1: t1, 2: t2})
+    tcs.gwy = gwy
     sch = S.Schedule(FakeZone("01", tcs, gwy))  # the real constructor: a zone that has not fetched anything yet
     other = S.Schedule(FakeZone("02", tcs, gwy))
     if n:
         sch._payload_set = init
-    o = outcome(sch._get_schedule, force_io=True)
+    # forced: the change counter is read before the lock is taken; not forced (a zone's first fetch): inside it
+    o = outcome(sch._get_schedule, force_io=sym_bool("force_io"))
     check(tcs.zone_lock_idx is None, "no zone lock is left behind by _get_schedule, however it ends")
     check(o.ok or isinstance(o.exc, (exc.ProtocolError, TimeoutError, asyncio.CancelledError)),
           "a transfer ends with a schedule or a protocol error (not a RuntimeError from a full but unprocessed fragment set)")
@@ -374,6 +392,10 @@ def fetch_survives_a_change_on_the_controller(n, t1, t2):
         else:
             check(sch._full_schedule.get("version") in (1, 2), "a completed transfer holds a schedule of one version of the controller's")
         check(sch._sched_ver == sch._global_ver, "at the change counter read during the transfer")
+        check(sch._sched_ver in (1, 2), "and that counter is one the controller really held during the transfer")
+        if gwy.last_total != 0:
+            check(sch._full_schedule.get("version") >= sch._sched_ver,
+                  "the schedule kept is never OLDER than the change counter it is filed under (else it would pass for current for ever)")
 
 
 def _releases_in_finally(fn, obtain="_obtain_lock", release="_release_lock"):
@@ -407,3 +429,81 @@ def resume_is_in_a_finally():
         ok, detail = _releases_in_finally(fn, "self._pause()", "self._resume()")
         out.append((f"{fn.__qualname__}: _resume() is in a finally that covers everything after _pause()", ok, detail))
     return out
+
+
+# ---- C18: the lock itself -- ScheduleSync._obtain_lock / _release_lock ------------------------------------------
+from datetime import datetime as _dt, timedelta as _td  # noqa: E402
+
+from ramses_rf.system import heat as SH  # noqa: E402
+
+
+class TypestateLock:
+    """threading.Lock typestate (one thread): acquire requires free, release requires held."""
+
+    def __init__(self):
+        self.held = False
+        self.misused = False
+
+    def acquire(self):
+        if self.held:
+            self.misused = True  # would block the event loop for good
+        self.held = True
+
+    def release(self):
+        if not self.held:
+            self.misused = True
+        self.held = False
+
+
+class ClockOfTheHarness:
+    """datetime.now() as the schedule module sees it: a non-decreasing clock the harness advances."""
+
+    @staticmethod
+    def now():
+        return _dt(2024, 1, 1) + _td(milliseconds=ghost("elapsed_ms")[-1])
+
+
+async def sleep_while_waiting_for_the_lock(delay, result=None):
+    """asyncio.sleep as awaited by _obtain_lock: time passes (a little, or past the 3 minutes), the zone
+    that holds the lock may release it meanwhile, and the waiter may be cancelled (its caller gave up)."""
+    tcs, me = ghost("tcs")[0], ghost("me")[0]
+    n = len(ghost("sleeps"))
+    ghost("sleeps").append(delay)
+    ghost("owned_while_suspended").append(tcs.zone_lock_idx == me)
+    ghost("elapsed_ms").append(ghost("elapsed_ms")[-1] + (5 if sym_bool(f"only_a_moment_passes_{n}") else 200_000))
+    if tcs.zone_lock_idx is not None and tcs.zone_lock_idx != me and sym_bool(f"the_other_zone_releases_{n}"):
+        tcs.zone_lock_idx = None
+    if sym_bool(f"cancelled_while_waiting_{n}"):
+        raise asyncio.CancelledError()
+    if n >= 3:
+        assume(False)  # bounded: at most 4 waits are unrolled
+    return result
+
+
+@harness("C18", stubs={asyncio.sleep: sleep_while_waiting_for_the_lock})
+def obtaining_the_lock_is_all_or_nothing():
+    """ScheduleSync._obtain_lock(zone): from a free lock, or one held by another zone that may release it at
+    any wait (or never: the 3 minutes run out), with cancellation possible at every wait: it returns only
+    when this zone owns the lock; when it raises (TimeoutError, or the caller's cancellation) this zone does
+    NOT own it; the zone never owns the lock while suspended inside _obtain_lock (where no finally of the
+    caller covers it yet); the inner threading lock is never left held.  _release_lock frees it."""
+    set_global(SH, "dt", ClockOfTheHarness)
+    ghost("elapsed_ms").append(0)
+    lock = TypestateLock()
+    held_by = sym_choice("lock_held_by", [None, "02"])
+    tcs = new_object(SH.ScheduleSync, zone_lock=lock, zone_lock_idx=held_by)
+    ghost("tcs").append(tcs)
+    ghost("me").append("01")
+    o = outcome(run_coro, tcs._obtain_lock("01"))
+    check(Not(lock.misused) and Not(lock.held), "the inner lock is taken and given back in pairs and never left held")
+    check(all(Not(x) for x in ghost("owned_while_suspended")), "the zone never owns the schedule lock while suspended inside _obtain_lock")
+    if o.ok:
+        cover("obtained")
+        check(tcs.zone_lock_idx == "01", "_obtain_lock returns only when this zone owns the lock")
+    else:
+        cover("not obtained")
+        check(isinstance(o.exc, (TimeoutError, asyncio.CancelledError)), "_obtain_lock gives up with TimeoutError (or is cancelled)")
+        check(tcs.zone_lock_idx != "01", "a wait for the lock that is given up or cancelled does not leave the lock with this zone")
+    if o.ok:
+        tcs._release_lock()
+        check(And(tcs.zone_lock_idx is None, Not(lock.held), Not(lock.misused)), "_release_lock frees the schedule lock")
